@@ -67,5 +67,7 @@ def run(ctx):
     rep.floor('POST-MATCH-sites', per_kind.get('POST-MATCH', 0), 3)
     rep.floor('SPEC-POST-sites', per_kind.get('SPEC-POST', 0), 6)
     rep.floor('dispatch-sites', pk2.get('REL-PRE', 0), 2)
+    from . import lanelaws
+    lanelaws.emit(rep, ctx, cfgs, PID)
     rep.extra.update({'configs': cfgs, 'roots_per_config': {c: sorted(set(v)) for c, v in roots_seen.items()}, 'sites_by_kind': dict(per_kind, **{'REL-PRE(dispatch)': pk2.get('REL-PRE', 0)})})
     return rep
